@@ -1,5 +1,6 @@
 import NomtModel.Store.SeekReconOK
 import NomtModel.Core.TermHasher
+import NomtModel.Generated.Constants
 /-!
 # C05 — the seek (`nomt/src/merkle/seek.rs`): every completed seek holds the specified path proof
 
@@ -159,6 +160,10 @@ theorem T5_seek_range_bounds (bs : List Bool) (hb : bs.length ≤ KEY_BITS) :
       ∀ k : Key, k.length = KEY_BITS →
         (inRange (bs ++ List.replicate (KEY_BITS - bs.length) false) stop k = true ↔ bs.isPrefixOf k = true) :=
   rangeBounds_spec bs hb
+
+/-- the constants the mirror and the hypotheses carry are the ones of the current sources -/
+theorem T5_const_seek : Seek.THRESHOLD = Gen.PAGE_ELISION_THRESHOLD ∧ TriePos.DEPTH = Gen.DEPTH ∧
+    TriePos.NODES_PER_PAGE = Gen.NODES_PER_PAGE ∧ TriePos.MAX_PAGE_DEPTH = Gen.MAX_PAGE_DEPTH := by decide
 
 /-! ### non-vacuity: a world with two keys, the free hasher, a cold cache -/
 
